@@ -441,6 +441,14 @@ def check_inbound(prog, r):
             return ("has_aspath", (lab == {"true"}) == e[1].endswith("is_some"))
         if e[0] == "call" and re.search(r"Result::<T, E>::is_(ok|err)$", e[1]) and any(c.endswith("Attribute::as_path_count") for c in calls) and len(lab) == 1:
             return ("ok_" + _who(e, fvx), (lab == {"true"}) == e[1].endswith("is_ok"))
+        # explicit search loop: `for a in attr { if a.code() == AS_PATH { found = Some(a); break } }`
+        if e[0] == "discr" and any(c.endswith("Iterator::next") for c in calls) and not any(c.endswith("Attribute::as_path_count") for c in calls) and lab <= {"Some", "None"} and len(lab) == 1:
+            return ("has_aspath", False) if lab == {"None"} else "skip"
+        if e[0] == "bin" and e[1] in ("Eq", "Ne") and any(c.endswith("Attribute::code") for c in calls) and len(lab) == 1 and lab <= {"true", "false"}:
+            cs_ = [x[1] for x in (e[2], e[3]) if isinstance(x, tuple) and x and x[0] == "const"]
+            if cs_ == [2]:
+                hit = (e[1] == "Eq") == (lab == {"true"})
+                return ("has_aspath", True) if hit else "skip"
         if e[0] == "bin" and e[1] in ("Gt", "Ne", "Eq", "Ge", "Lt", "Le") and len(lab) == 1 and lab <= {"true", "false"}:
             t_ = lab == {"true"}
             consts = [x[1] for x in (e[2], e[3]) if isinstance(x, tuple) and x and x[0] == "const"]
